@@ -38,7 +38,9 @@ Fixpoint runo (fuel : nat) (s : P) (t : Z) : option P :=
   | O => if t <=? 0 then Some s else None
   | S f => if t <=? 0 then Some s else let '(s', t') := step s t in runo f s' t'
   end.
-Definition exec_fuel (s : P) (t : Z) : nat := Z.to_nat (t / interval s + 4).
+(* steps happen only while the schedule is live: at most min(t, time_left) / interval ticks, plus the partial and the exit step
+   (an unused slot keeps its placeholder interval 1 while t is scaled: t / interval would be astronomically large there) *)
+Definition exec_fuel (s : P) (t : Z) : nat := Z.to_nat (Z.min t (Z.max 0 (tl s)) / Z.max 1 (interval s) + 4).
 Definition elapse_exec (s : P) (t : Z) : option P := runo (exec_fuel s t) s t.
 
 (* entity API used by the component model *)
